@@ -149,6 +149,19 @@ Fixpoint map_first_rune (tbl : list (str * str)) (s : str) : str :=
                    end
   end.
 
+(* template_funcs.Exported on ASCII identifiers: an initialism if the upper-cased string is one,
+   else the first byte upper-cased.  (Exported is property C16's; the model below is
+   parametric in it, this instance is what the harness and the refutation witnesses use.) *)
+Definition initialisms : list str :=
+  [B "ACL"; B "API"; B "ASCII"; B "CPU"; B "CSS"; B "DNS"; B "EOF"; B "GUID"; B "HTML"; B "HTTP"; B "HTTPS"; B "ID"; B "IP"; B "JSON"; B "LHS";
+   B "QPS"; B "RAM"; B "RHS"; B "RPC"; B "SLA"; B "SMTP"; B "SQL"; B "SSH"; B "TCP"; B "TLS"; B "TTL"; B "UDP"; B "UI"; B "UID"; B "UUID"; B "URI";
+   B "URL"; B "UTF8"; B "VM"; B "XML"; B "XMPP"; B "XSRF"; B "XSS"].
+Definition exported_ascii (s : str) : str :=
+  match s with
+  | [] => []
+  | b :: r => if smem (map ascii_upper s) initialisms then map ascii_upper s else ascii_upper b :: r
+  end.
+
 Record ctx := {
   cx_names : list (str * str);     (* import path -> package name (types.Package.Name()) *)
   cx_lower : list (str * str);     (* unicode.ToLower on non-ASCII first runes *)
@@ -318,15 +331,16 @@ Section Model.
      (iface.Method(i); that order and the method set itself are go/types' and are inputs) *)
   Record iface := { if_name : str; if_struct : str; if_tparams : items ty; if_methods : list (str * sig) }.
 
-  Record idata := { i_name : str; i_struct : str; i_tparams : list var_; i_methods : list mdata }.
+  Record idata := { i_name : str; i_struct : str; i_tparams : list var_; i_methods : list mdata;
+                    i_tpscope : scope (* the scope in which the type parameters were named; not visible to templates *) }.
 
   (* one iteration of the loop in Generate: all methods, then collision resolution for
      every method, then the type parameters (a fresh scope, no collision resolution) *)
   Definition gen_iface (r : registry) (i : iface) : registry * idata :=
     let '(r1, ds) := methods_data (map (fun it => lname (fst it)) (if_tparams i)) r (if_methods i) in
     let ds' := map resolve_collisions ds in
-    let '(r2, _, tps) := run_group r1 [] (if_tparams i) in
-    (r2, {| i_name := if_name i; i_struct := if_struct i; i_tparams := tps; i_methods := ds' |}).
+    let '(r2, s2, tps) := run_group r1 [] (if_tparams i) in
+    (r2, {| i_name := if_name i; i_struct := if_struct i; i_tparams := tps; i_methods := ds'; i_tpscope := s2 |}).
 
   Fixpoint gen_ifaces (r : registry) (is : list iface) : registry * list idata :=
     match is with
